@@ -85,6 +85,25 @@ theorem kindOfTy_range (ty : String) : 0 ≤ kindOfTy ty ∧ kindOfTy ty ≤ 7 :
   repeat' split
   all_goals omega
 
+/-- the kind switch of `convertAttrToField` picks the constructor that carries the model's type tag -/
+theorem kind_ctor (ty : String) :
+    (kindOfTy ty = 1 ∧ ctorOfTy ty = "zap.Bool") ∨ (kindOfTy ty = 2 ∧ ctorOfTy ty = "zap.Duration") ∨
+    (kindOfTy ty = 3 ∧ ctorOfTy ty = "zap.Float64") ∨ (kindOfTy ty = 4 ∧ ctorOfTy ty = "zap.Int64") ∨
+    (kindOfTy ty = 5 ∧ ctorOfTy ty = "zap.String") ∨ (kindOfTy ty = 6 ∧ ctorOfTy ty = "zap.Time") ∨
+    (kindOfTy ty = 7 ∧ ctorOfTy ty = "zap.Uint64") ∨ (kindOfTy ty = 0 ∧ ctorOfTy ty = "zap.Any") := by
+  unfold kindOfTy ctorOfTy
+  by_cases h1 : ty = "bool"; · simp [h1]
+  by_cases h2 : ty = "duration"; · simp [h1, h2]
+  by_cases h3 : ty = "float64"; · simp [h1, h2, h3]
+  by_cases h4 : ty = "int64"; · simp [h1, h2, h3, h4]
+  by_cases h5 : ty = "string"; · simp [h1, h2, h3, h4, h5]
+  by_cases h6 : ty = "time"; · simp [h1, h2, h3, h4, h5, h6]
+  by_cases h7 : ty = "uint64"; · simp [h1, h2, h3, h4, h5, h6, h7]
+  simp [h1, h2, h3, h4, h5, h6, h7]
+
+theorem convV_resolved (a : SAttr) : convV (resolved a) = convV a := by cases a <;> rfl
+theorem dep_resolved (a : SAttr) : dep (resolved a) = dep a := by cases a <;> rfl
+
 @[simp] theorem ext_skip (P : Par) : ext P "zap.Skip" [] = some [skipV] := id rfl
 @[simp] theorem ext_ctor2 (P : Par) (k p : Val) :
     ext P "zap.Bool" [k, p] = some [.list [nm "zap.Bool", k, p]] ∧ ext P "zap.Duration" [k, p] = some [.list [nm "zap.Duration", k, p]] ∧
